@@ -43,11 +43,28 @@ let read_pkt () =
   { p_ver; p_olen; p_ttl; p_win; p_layout; p_mss; p_ws; p_ts1; p_eol_pad; p_hdrlen; p_payload; p_quirks; p_syn_mss }
 let jmtype = function Exact -> "\"EXACT\"" | FuzzyTTL -> "\"FUZZY_TTL\"" | FuzzyQuirks -> "\"FUZZY_QUIRKS\""
 
+let read_rec () =
+  let r_line = nz () in let r_generic = nb () in let r_userapp = nb () in let r_sig = read_sig () in
+  { r_line; r_generic; r_userapp; r_sig }
+let read_recs () = let n = ni () in if n < 0 then None else Some (List.init n (fun _ -> read_rec ()))
+let jerr = function
+  | PacketError -> "{\"err\":\"PacketError\"}" | FieldError -> "{\"err\":\"FieldError\"}"
+  | ParsingError l -> "{\"err\":\"ParsingError\",\"line\":" ^ ji l ^ "}"
+  | DatabaseError -> "{\"err\":\"DatabaseError\"}" | ValueErr -> "{\"err\":\"ValueError\"}"
+  | Crash CIndex -> "{\"err\":\"Crash\",\"exc\":\"IndexError\"}" | Crash CValue -> "{\"err\":\"Crash\",\"exc\":\"ValueError\"}"
+  | Crash CType -> "{\"err\":\"Crash\",\"exc\":\"TypeError\"}" | Crash CKey -> "{\"err\":\"Crash\",\"exc\":\"KeyError\"}"
+  | Crash COther -> "{\"err\":\"Crash\",\"exc\":\"other\"}" | OutOfFuel -> "{\"err\":\"OutOfFuel\"}"
+let jres f = function Ok a -> "{\"ok\":" ^ f a ^ "}" | Err e -> jerr e
+
 let dispatch cmd =
   match cmd with
   | "win_multi" -> let p = read_pkt () in jpair ji jb (win_multi p)
   | "tcp_match" -> let md = nz () in let s = read_sig () in let p = read_pkt () in
       "[" ^ jopt jmtype (tcp_match md s p) ^ "," ^ jpair ji jb (win_multi p) ^ "]"
+  | "fp_tcp" -> let md = nz () in let frag = nb () in let ty = nz () in let p = read_pkt () in
+      let db_req = read_recs () in let db_resp = read_recs () in
+      jres (fun (m, d) -> "[" ^ jopt (fun (_, r) -> ji r.r_line) m ^ "," ^ jopt (fun (t, _) -> jmtype t) m ^ "," ^ ji d ^ "]")
+        (fp_tcp md { db_req; db_resp } frag ty p)
   | _ -> failwith ("unknown command " ^ cmd)
 
 let () =
